@@ -41,9 +41,12 @@ class Stepper:
     _hook_installed = False
     current = None
 
-    def __init__(self, var_path: Path, n: int):
+    def __init__(self, var_path: Path, n: int, names=None):
         self.var = var_path
         self.n = n
+        # the program name each process was started under (apt-mirror / apt-mirror2: the tool looks at argv[0]);
+        # one thread moves at a time, so argv[0] is switched to the mover's name before every step
+        self.names = list(names) if names else ["apt-mirror"] * n
         self.lock_path = str(var_path / "apt-mirror.lock")
         self.state = ["start"] * n          # gate each thread waits at, or 'done'
         self.go = [threading.Semaphore(0) for _ in range(n)]
@@ -69,7 +72,9 @@ class Stepper:
         me = st.tid.get(threading.get_ident())
         if me is None:
             return
-        if event == "open" and isinstance(args[0], (str, bytes, os.PathLike)) and os.fspath(args[0]) == st.lock_path:
+        if event == "open" and isinstance(args[0], (str, bytes, os.PathLike)) and \
+                (os.fspath(args[0]) == st.lock_path or
+                 (os.path.dirname(os.fsdecode(os.fspath(args[0]))) == str(st.var) and os.fsdecode(os.fspath(args[0])).endswith(".lock"))):
             st._gate(me, "open")
         elif event == "fcntl.flock":
             st._gate(me, "flock")
@@ -85,13 +90,8 @@ class Stepper:
         from apt_mirror.apt_mirror import APTMirror
         self.tid[threading.get_ident()] = me
         self._gate(me, "begin")
-        am = APTMirror.__new__(APTMirror)
-
-        class Cfg:
-            var_path = self.var
-        am._config = Cfg()
-        import logging
-        am._log = logging.getLogger("verif-c13")
+        from . import runs as R
+        am = R.bare_apt(self.var)
         try:
             with am.lock():
                 self.flock_result[me] = "ok"
@@ -113,9 +113,11 @@ class Stepper:
         """schedule: list of thread indices; each entry lets that thread perform the
         action it is waiting at.  Returns the list of performed (pid, action)."""
         threads = [threading.Thread(target=self._thread, args=(i,), daemon=True) for i in range(self.n)]
+        argv0 = sys.argv[0]
         for i, t in enumerate(threads):
             t.start()
             self.arrived[i].acquire()       # at 'begin'
+            sys.argv[0] = self.names[i]
             self.go[i].release()
             self.arrived[i].acquire()       # at first real gate (open)
         performed = []
@@ -123,6 +125,7 @@ class Stepper:
             if self.state[p] == "done":
                 continue
             act = self.state[p]
+            sys.argv[0] = self.names[p]
             self.go[p].release()
             self.arrived[p].acquire()       # next gate or done
             if act == "flock":
@@ -134,12 +137,14 @@ class Stepper:
             guard = 0
             while self.state[p] != "done" and guard < 10:
                 act = self.state[p]
+                sys.argv[0] = self.names[p]
                 self.go[p].release()
                 self.arrived[p].acquire()
                 performed.append((p, act, 0 if not (act == "flock" and self.flock_result[p] != "ok") else 1))
                 guard += 1
         for t in threads:
             t.join(timeout=5)
+        sys.argv[0] = argv0
         Stepper.current = None
         return performed
 
@@ -163,6 +168,21 @@ def schedules(n, steps, rng, limit):
         s = base[:]
         rng.shuffle(s)
         yield s
+
+
+PROGRAM_NAMES = ("apt-mirror", "apt-mirror2")
+
+
+def named_schedules(n, steps, rng, limit):
+    """every schedule with the program names of its processes: two processes under all four name pairs,
+    three processes under random names"""
+    for sched in schedules(n, steps, rng, limit):
+        if n == 2:
+            for a in PROGRAM_NAMES:
+                for b in PROGRAM_NAMES:
+                    yield sched, [a, b]
+        else:
+            yield sched, [rng.choice(PROGRAM_NAMES) for _ in range(n)]
 
 
 def stale_lock_check(var: Path) -> bool:
@@ -285,27 +305,28 @@ def run(rep: C.Report):
     try:
         k = 0
         for n, steps, limit in ((2, 4, 0), (3, 4, 200 if rep.tier == "quick" else 5000)):
-            for sched in schedules(n, steps, rng, limit):
+            for sched, names in named_schedules(n, steps, rng, limit):
                 var = top / f"var{k}"
                 k += 1
                 var.mkdir()
-                st = Stepper(var, n)
+                st = Stepper(var, n, names)
                 perf = st.run(sched)
                 unlink_seen = any(a == "unlink" for _, a, _ in perf)
                 key = tuple(perf)
-                rep.case(("lock", key), sample={"n": n, "performed": perf, "max_inside": st.max_inside})
+                rep.case(("lock", key, tuple(names)), sample={"n": n, "names": names, "performed": perf, "max_inside": st.max_inside})
+                rep.count("names." + "+".join(sorted(set(names))))
                 rep.count(f"n{n}.max_inside.{st.max_inside}")
                 if st.max_inside > 1:
                     found = True
                     rep.violation(f"{st.max_inside} instances inside the mirroring section at once",
-                                  {"kind": "oracle", "tie": "lock", "case": {"n": n, "schedule": sched, "performed": perf}},
+                                  {"kind": "oracle", "tie": "lock", "case": {"n": n, "names": names, "schedule": sched, "performed": perf}},
                                   tags={"oracle": "exclusion"})
                 for p in range(n):
                     if st.flock_result[p] == "refused":
                         if st.body_entered[p] or st.exit_code[p] in (0, None):
                             found = True
                             rep.violation("a process whose flock was refused entered the section or exited 0",
-                                          {"kind": "oracle", "tie": "lock", "case": {"n": n, "schedule": sched, "performed": perf}},
+                                          {"kind": "oracle", "tie": "lock", "case": {"n": n, "names": names, "schedule": sched, "performed": perf}},
                                           tags={"oracle": "loser"})
                         after = False
                         for q, a, o in perf:
@@ -314,10 +335,10 @@ def run(rep: C.Report):
                             elif q == p and after:
                                 found = True
                                 rep.violation(f"a refused process went on to perform {a} on the shared var_path",
-                                              {"kind": "oracle", "tie": "lock", "case": {"n": n, "schedule": sched, "performed": perf}},
+                                              {"kind": "oracle", "tie": "lock", "case": {"n": n, "names": names, "schedule": sched, "performed": perf}},
                                               tags={"oracle": "loser_touches"})
                 tr = clist(ctuple(cnat(p), ACT.get(a, "AKill")) for p, a, _ in perf)
-                rows.append(({"n": n, "schedule": sched, "performed": perf},
+                rows.append(({"n": n, "names": names, "schedule": sched, "performed": perf},
                              ctuple("true" if unlink_seen else "false", tr),
                              ctuple(clist(cnat(o) for _, _, o in perf), cnat(st.max_inside))))
                 shutil.rmtree(var, ignore_errors=True)
@@ -358,7 +379,7 @@ def replay(rep: C.Report, path: str):
                 loser_run_check(rep, rng, top, i)
             print("replayed the loser runs; violations", rep.violations)
             return
-        st = Stepper(top, c["n"])
+        st = Stepper(top, c["n"], c.get("names"))
         perf = st.run(c["schedule"])
         print("performed:", perf, "max inside:", st.max_inside)
         if st.max_inside > 1:
